@@ -87,7 +87,7 @@ Hypothesis Hne : kdf_nonempty c.
 Hypothesis Hc : cache_ok c h rk rkid (target_sd s) l0 cache.
 Hypothesis Hr2 : len r2 = 12.
 Hypothesis Hr3 : len r3 = 32.
-Hypothesis Sw : forall k w, kw_wrap c k r1 = Ok w -> len w < U32.
+Hypothesis Sw : forall kek w, derived_kek c h rk rkid (target_sd s) l0 l1 l2 r3 = Ok kek -> kw_wrap c kek r1 = Ok w -> len w < U32.
 Hypothesis Sct : forall ct, gcm_enc c r1 r2 data = Ok ct -> len ct < U32.
 Hypothesis Hp : protect_offline c cache r1 r2 r3 data sid (Some rkid) time_ns = (Ok B, cache1).
 Hypothesis Hb0 : blob_unpack B = Ok b0.
@@ -117,3 +117,62 @@ Proof.
 Qed.
 End Protected.
 End C04.
+
+(* ---- instances under the guarded symbolic crypto (ideal by construction: symg_ideal) ---- *)
+Definition ex_data : bytes := [100; 97; 116; 97].
+Definition ex_B : bytes :=
+  match protect_offline symg ex_cache ex_r1 ex_r2 ex_r3 ex_data ex_sid (Some ex_rkid) ex_time with (Ok B, _) => B | _ => [] end.
+Definition ex_c1 : ccache := snd (protect_offline symg ex_cache ex_r1 ex_r2 ex_r3 ex_data ex_sid (Some ex_rkid) ex_time).
+Definition dummy_blob : blob :=
+  {| b_key_identifier := emitted_kid 0 0 0 0 [] [] [] []; b_sid := []; b_enc_cek := []; b_enc_cek_algorithm := []; b_enc_cek_parameters := None;
+     b_enc_content := []; b_enc_content_algorithm := []; b_enc_content_parameters := None |}.
+Definition ex_b0 : blob := match blob_unpack ex_B with Ok b => b | Raise _ => dummy_blob end.
+Lemma ex_protect : protect_offline symg ex_cache ex_r1 ex_r2 ex_r3 ex_data ex_sid (Some ex_rkid) ex_time = (Ok ex_B, ex_c1).
+Proof. vm_compute. reflexivity. Qed.
+Lemma ex_unpack : blob_unpack ex_B = Ok ex_b0. Proof. vm_compute. reflexivity. Qed.
+
+(* benign changes: the key-identifier version and a flag bit other than bit 0 (and both, plus the names) *)
+Definition with_kid (b : blob) (kid : key_identifier) : blob :=
+  {| b_key_identifier := kid; b_sid := b_sid b; b_enc_cek := b_enc_cek b; b_enc_cek_algorithm := b_enc_cek_algorithm b;
+     b_enc_cek_parameters := b_enc_cek_parameters b; b_enc_content := b_enc_content b;
+     b_enc_content_algorithm := b_enc_content_algorithm b; b_enc_content_parameters := b_enc_content_parameters b |}.
+Definition tweak_kid (version flag_bits l2_delta : Z) (domain : pystr) (k : key_identifier) : key_identifier :=
+  {| kid_version := version; kid_flags := Z.lor (kid_flags k) flag_bits; kid_l0 := kid_l0 k; kid_l1 := kid_l1 k; kid_l2 := kid_l2 k + l2_delta;
+     kid_rkid := kid_rkid k; kid_key_info := kid_key_info k; kid_domain := domain; kid_forest := kid_forest k |}.
+Definition repack (b : blob) : bytes := match blob_pack b true with Ok bs => bs | Raise _ => [] end.
+Definition ex_B_version : bytes := repack (with_kid ex_b0 (tweak_kid 7 0 0 [] (b_key_identifier ex_b0))).
+Definition ex_B_flag : bytes := repack (with_kid ex_b0 (tweak_kid 1 4 0 [] (b_key_identifier ex_b0))).
+Definition ex_B_names : bytes := repack (with_kid ex_b0 (tweak_kid 9 2147483648 0 [120; 46; 121] (b_key_identifier ex_b0))).
+(* changes of fields that influence the keys or the ciphertext: L2 index, public-key flag, nonce in the parameters *)
+Definition ex_B_l2 : bytes := repack (with_kid ex_b0 (tweak_kid 1 0 (-1) [] (b_key_identifier ex_b0))).
+Definition ex_B_pubflag : bytes := repack (with_kid ex_b0 (tweak_kid 1 1 0 [] (b_key_identifier ex_b0))).
+
+Example benign_examples :
+  beqb ex_B_version ex_B = false /\ fst (unprotect_offline symg ex_c1 ex_B_version) = Ok ex_data /\
+  beqb ex_B_flag ex_B = false /\ fst (unprotect_offline symg ex_c1 ex_B_flag) = Ok ex_data /\
+  beqb ex_B_names ex_B = false /\ fst (unprotect_offline symg ex_c1 ex_B_names) = Ok ex_data.
+Proof. repeat split; vm_compute; reflexivity. Qed.
+Example harmful_examples :
+  fst (unprotect_offline symg ex_c1 ex_B_l2) = Raise InvalidUnwrap /\
+  (exists e, fst (unprotect_offline symg ex_c1 ex_B_pubflag) = Raise e) /\
+  fst (unprotect_offline symg ex_c1 (firstn 100 ex_B)) = Raise NotEnoughData.
+Proof. split; [vm_compute; reflexivity|]. split; [eexists; vm_compute; reflexivity|vm_compute; reflexivity]. Qed.
+
+(* NoForgery holds of the benign modification (its wrapped key and content are the original ones), and the theorem
+   applies to it: all hypotheses of no_other_plaintext are satisfiable together *)
+Lemma ex_noforgery : NoForgery symg ex_c1 (b_enc_cek ex_b0) (b_enc_content ex_b0) ex_r1 ex_B_version.
+Proof.
+  assert (Eu : blob_unpack ex_B_version = Ok (with_kid ex_b0 (tweak_kid 7 0 0 [] (b_key_identifier ex_b0)))) by (vm_compute; reflexivity).
+  constructor.
+  - intros b' k' x' E _ _. rewrite Eu in E. apply Ok_inj in E. subst b'. reflexivity.
+  - intros b' n' p' E _. rewrite Eu in E. apply Ok_inj in E. subst b'. reflexivity.
+Qed.
+Example ex_no_other_plaintext : forall p', fst (unprotect_offline symg ex_c1 ex_B_version) = Ok p' -> p' = ex_data.
+Proof.
+  intros p'.
+  assert (Hc : cache_ok symg SHA512 ex_rk ex_rkid (target_sd (parsed ex_sid)) 361 ex_cache) by (apply cache_ok_fresh; reflexivity).
+  apply (no_other_plaintext symg SHA512 ex_rk ex_rkid (parsed ex_sid) ex_sid ex_time 361 31 23 ex_cache ex_r1 ex_r2 ex_r3 ex_data ex_B ex_c1 ex_b0
+           ltac:(vm_compute; reflexivity) eq_refl eq_refl ltac:(vm_compute; reflexivity) ltac:(vm_compute; reflexivity) ltac:(unfold ex_time; lia)
+           ltac:(vm_compute; reflexivity) symg_kdf_nonempty Hc eq_refl eq_refl ltac:(ex_wrap_size) ltac:(ex_gcm_size) ex_protect ex_unpack
+           symg_ideal ex_c1 ex_B_version p' ex_noforgery).
+Qed.
